@@ -22,19 +22,24 @@ from common import cz, clist, czlist, copt, ctuple
 PROP = "C17"
 HEADER = "From Coq Require Import ZArith List.\nImport ListNotations.\nFrom IBL.C17 Require Import Run."
 TRUSTED = [
-    "Coq 8.16.1 kernel + vm_compute (no native_compute); all C17 theorems: Closed under the global context",
+    "Coq 8.16.1 kernel + vm_compute (no native_compute); C17 theorems: Closed under the global context, except the two "
+    "float64 theorems (Flocq 4.1 + Coq Reals: sig_forall_dec, sig_not_dec, functional_extensionality_dep, classic)",
     "hand-written models coq/C17/Model.v (generators) and coq/C17/Object.v (object state machine: shared iw, "
     "amplitude-buffer allocation, raw-argument window count) of ibldsp.utils.WindowGenerator, tied to /repo/src "
     "by this run's correspondence",
     "Python generator semantics as modelled: creating a generator runs no code; one next() runs to the next yield; "
     "a generator that raised is finished",
-    "float64 ceil(float(a)/float(b)) == exact integer ceiling for |a| < 2^52 (modelled exactly; validated on large random triples)",
+    "Python/NumPy float(int), float / float and np.ceil are IEEE-754 binary64 conversion, round-to-nearest-even division and "
+    "exact ceiling as formalised by Flocq (BinarySingleNaN.binary_normalize / Bdiv); under that reading the exact integer "
+    "ceiling in Model.nwin is a theorem for |ns-nswin|, nswin-overlap < 2^53 (C17_nwin_float64_exact), and is also validated "
+    "on large random triples",
     "NumPy 2 scalar arithmetic (NEP 50): uintN - int stays uintN and wraps modulo 2^N (modelled for N = 16, 32; N = 64 only observed)",
     "Hann ramp kept symbolic in the splicing theorem; hypothesis w[j]+w[ov-1-j]=1 is the source's own runtime assertion",
     "harness/pC17.py generators, canonicaliser (buffer identity via np.shares_memory) and oracle",
     "extraction (Require Extraction, ExtrOcamlBasic only: bool/option/unit/list/prod/sumbool/sumor + andb/orb inlined; Z, positive kept inductive), harness/driver.ml, ocamlfind ocamlopt; a sample of the same cases is re-evaluated by the kernel (vm_compute)",
 ]
 
+FLOAT_THEOREMS = ("C17_nwin_float64_exact", "C17_float64_ceil_div_exact")
 KIND_NAMES = ["firstlast", "firstlast_valid", "firstlast_splicing", "slice", "slice_array"]
 
 # constructor-argument representations: name -> (constructor, class, unsigned bits or 0, max exactly held)
@@ -160,15 +165,19 @@ def impl_observe(ns, nswin, ov, with_splice, rep="int", which="all", interleave=
                               "same generators consumed alone", not valid_partition_ok(ns, gv, fl)))
             wg2 = make_wg(ns, nswin, ov, rep, which)
             pts = {0, 1, nw // 2, nw - 2, nw - 1}
-            gv, ts_ok = [], True
+            gv, ts_ok, iw_ok = [], True, True
             for i, v in enumerate(wg2.firstlast_valid):
                 if i in pts:
                     t = wg2.tscale(1.0) * 2
-                    ts_ok = ts_ok and [int(round(float(x))) for x in t] == exp_ts and wg2.iw == nw - 1
+                    ts_ok = ts_ok and [int(round(float(x))) for x in t] == exp_ts
+                    iw_ok = iw_ok and wg2.iw == nw - 1
                 gv.append(tuple(int(x) for x in v))
             if gv != obs["valid"] or not ts_ok:
                 inter.append(("firstlast_valid with wg.tscale(fs) called inside the loop differs from firstlast_valid "
-                              "consumed alone", not valid_partition_ok(ns, gv, fl) or not ts_ok))
+                              "consumed alone (or the time scale computed there is not the window centres)",
+                              not valid_partition_ok(ns, gv, fl) or not ts_ok))
+            if not iw_ok:
+                inter.append(("wg.iw is not nwin-1 right after wg.tscale(fs) called inside a loop", False))
         if with_splice:
             wg2 = make_wg(ns, nswin, ov, rep, which)
             other = wg2.firstlast_valid if obs["valid"] is not None else wg2.slice
@@ -280,6 +289,7 @@ def run_schedule_impl(ns, nswin, ov, kinds, events):
     per_view = [[] for _ in kinds]
     amps = []           # every amplitude vector ever yielded (kept alive), with a copy taken at yield time
     nclasses = 0
+    iw_ahead = False    # a view's own position and wg.iw differ right after that view yielded
     for e in events:
         if e < 0:
             ts = wg.tscale(1.0) * 2
@@ -315,9 +325,10 @@ def run_schedule_impl(ns, nswin, ov, kinds, events):
                     else:
                         out = [6, -1, -1]
                 per_view[e].append(out)
+                iw_ahead = iw_ahead or wg.iw != len(per_view[e]) - 1
         iw = wg.iw
         trace += out + [-1 if iw is None else int(iw), nclasses]
-    problems = []
+    problems = [("iw_ahead", None)] if iw_ahead else []
     # materialised amplitudes: unchanged since they were yielded, and (view run to its end) they sum to one
     if not all(np.array_equal(a, c) for _, _, a, c, _ in amps):
         problems.append(("an amplitude vector changed after a later window was requested", False))
@@ -442,132 +453,200 @@ def rep_applicable(rep, which, ns, w, o):
     return max(ns, w, o) <= mx      # also for which == "ns": int operands beyond the type raise OverflowError (notes)
 
 
-def run(ctx):
-    common.proof_obligations(ctx, whitelist=[])
-    triples, boundary = gen_triples(ctx)
-    rng = ctx.rng
-    seen = set()
-    cases, inputs, outputs, descr = [], [], [], []
-    nontrivial = set()
-    dist = {"single_window": 0, "short_last": 0, "zero_overlap": 0, "ns_le_overlap": 0,
-            "half_or_less_overlap": 0, "spliced": 0, "odd_overlap": 0, "interleaved_patterns_run": 0}
+# ---------------------------------------------------------------------------------------------
+# chunked evaluation: each worker runs the implementation on its chunk, pushes the same inputs through the
+# extracted Coq model, compares, and returns only verdicts, counters and a few small cases (kept for the
+# kernel re-evaluation); nothing data-sized is held for the whole run
+# ---------------------------------------------------------------------------------------------
+_EX = None      # common.Extracted, built before the pool forks
 
-    def tri(ns, w, o):
-        return {"ns": ns, "nswin": w, "overlap": o}
 
-    # ---- family 1: triples ------------------------------------------------------------------
-    for (ns, w, o) in triples:
-        if (ns, w, o) in seen:
-            continue
-        seen.add((ns, w, o))
-        n_est = max(0, -((-(ns - w)) // (w - o))) + 1
-        with_splice = ns <= 3000 and n_est * min(ns, w) <= 40000
-        try:
-            obs = impl_observe(ns, w, o, with_splice)
-        except Exception as e:      # the property says these calls succeed on the whole domain
-            ctx.fail("WindowGenerator raised %r" % (e,), tri(ns, w, o), {"kind": "exception"})
-            continue
-        cases.append(obs)
-        inputs.append(enc_inp(obs))
-        outputs.append(enc_obs(obs))
-        descr.append(tri(ns, w, o))
-        for b in oracle(obs):
-            ctx.fail(b, tri(ns, w, o), {"kind": b.split()[0], "repr_class": "exact", "ns_lt_nswin": ns < w})
-        for b in soft_checks(obs):
-            ctx.disagree(b, tri(ns, w, o))
-        nfl = len(obs["fl"])
-        dist["single_window"] += nfl == 1
-        dist["short_last"] += nfl > 1 and (obs["fl"][-1][1] - obs["fl"][-1][0]) < w
-        dist["zero_overlap"] += o == 0
-        dist["ns_le_overlap"] += ns <= o
-        dist["half_or_less_overlap"] += 2 * o <= w
-        dist["spliced"] += with_splice
-        dist["odd_overlap"] += o % 2 == 1
-        dist["interleaved_patterns_run"] += 1 + (2 if o % 2 == 0 else 0) + (1 if with_splice else 0)
-        if nfl > 1:
-            nontrivial.add((ns, w, o))
-    n_triples = len(cases)
+def tri(ns, w, o):
+    return {"ns": ns, "nswin": w, "overlap": o}
 
-    # ---- family 2: schedules ----------------------------------------------------------------
-    scheds = gen_schedules(ctx, 30000 if ctx.thorough() else 3500)
-    sdist = {"schedules": 0, "events": 0, "with_tscale": 0, "two_or_more_views": 0, "valid_next_to_other": 0,
-             "splicing_views": 0, "assertion_path": 0, "iw_ahead_of_reader": 0, "patterns": {}}
-    sched_seen = set()
-    for (ns, w, o, kinds, ev, pat) in scheds:
-        key = (ns, w, o, tuple(kinds), tuple(ev))
-        if key in sched_seen or not ev:
-            continue
-        sched_seen.add(key)
-        d = dict(tri(ns, w, o), mode="schedule", kinds=kinds, events=ev)
-        try:
-            trace, per_view, problems = run_schedule_impl(ns, w, o, kinds, ev)
-        except Exception as e:
-            ctx.fail("WindowGenerator raised %r during an interleaved schedule" % (e,), d, {"kind": "exception"})
-            continue
-        for what, violated in problems:
-            if violated:
-                ctx.fail(what, d, {"kind": "interleaved"})
-            else:
-                ctx.disagree(what, d)
-        inputs.append([ns, w, o, 2, len(kinds)] + kinds + ev)
-        outputs.append(trace)
-        descr.append(d)
-        sdist["schedules"] += 1
-        sdist["events"] += len(ev)
-        sdist["with_tscale"] += -1 in ev
-        used = {e for e in ev if e >= 0}
-        sdist["two_or_more_views"] += len(used) >= 2
-        sdist["valid_next_to_other"] += any(kinds[e] == 1 for e in used) and len(used) >= 2 and o % 2 == 0 and o > 0
-        sdist["splicing_views"] += any(kinds[e] == 2 for e in used)
-        sdist["assertion_path"] += any(kinds[e] == 1 for e in used) and o % 2 == 1
-        sdist["patterns"][pat] = sdist["patterns"].get(pat, 0) + 1
-        if len(used) >= 2 and len(per_view[0]) > 1:
-            nontrivial.add(key)
-    n_sched = sdist["schedules"]
 
-    # ---- family 3: representations of the constructor arguments ------------------------------
-    base = {(c["ns"], c["nswin"], c["ov"]): c for c in cases}
-    pool = [t for t in dict.fromkeys(boundary) if t in base]
-    rest = [t for t in base if base[t]["nwin"] <= 200]
-    pool += rng.sample(rest, min(len(rest), 6000 if ctx.thorough() else 700))
-    rdist = {}
-    n_repr = 0
-    for (ns, w, o) in dict.fromkeys(pool):
-        b = base[(ns, w, o)]
-        for rep, (conv, rclass, ubits, _) in REPRS.items():
-            if rep == "int":
+def _work(job):
+    kind, idx, items = job
+    import random
+    res = {"fails": [], "disagrees": [], "stats": {}, "n": 0, "nontrivial": 0, "keep": [], "samples": [], "nmodel": 0}
+    st = res["stats"]
+
+    def bump(k, v=1):
+        st[k] = st.get(k, 0) + int(v)
+    inputs, outputs, descr = [], [], []
+    if kind == "triple":
+        for (ns, w, o) in items:
+            n_est = max(0, -((-(ns - w)) // (w - o))) + 1
+            with_splice = ns <= 3000 and n_est * min(ns, w) <= 40000
+            try:
+                obs = impl_observe(ns, w, o, with_splice)
+            except Exception as e:      # the property says these calls succeed on the whole domain
+                res["fails"].append(("WindowGenerator raised %r" % (e,), tri(ns, w, o), {"kind": "exception"}))
                 continue
-            for which in ("all", "ns"):
-                if not rep_applicable(rep, which, ns, w, o):
+            res["n"] += 1
+            inputs.append(enc_inp(obs))
+            outputs.append(enc_obs(obs))
+            descr.append(tri(ns, w, o))
+            for b in oracle(obs):
+                res["fails"].append((b, tri(ns, w, o), {"kind": b.split()[0], "repr_class": "exact", "ns_lt_nswin": ns < w}))
+            for b in soft_checks(obs):
+                res["disagrees"].append((b, tri(ns, w, o)))
+            nfl = len(obs["fl"])
+            bump("single_window", nfl == 1)
+            bump("short_last", nfl > 1 and (obs["fl"][-1][1] - obs["fl"][-1][0]) < w)
+            bump("zero_overlap", o == 0)
+            bump("ns_le_overlap", ns <= o)
+            bump("half_or_less_overlap", 2 * o <= w)
+            bump("spliced", with_splice)
+            bump("odd_overlap", o % 2 == 1)
+            bump("interleaved_patterns_run", 1 + (2 if o % 2 == 0 else 0) + (1 if with_splice else 0))
+            res["nontrivial"] += nfl > 1
+            if len(res["samples"]) < 2 and nfl > 1:
+                res["samples"].append({"ns": ns, "nswin": w, "overlap": o, "firstlast": obs["fl"][:4], "nwin": obs["nwin"]})
+    elif kind == "sched":
+        for (ns, w, o, kinds, ev, pat) in items:
+            d = dict(tri(ns, w, o), mode="schedule", kinds=kinds, events=ev)
+            try:
+                trace, per_view, problems = run_schedule_impl(ns, w, o, kinds, ev)
+            except Exception as e:
+                res["fails"].append(("WindowGenerator raised %r during an interleaved schedule" % (e,), d, {"kind": "exception"}))
+                continue
+            if problems and problems[0][0] == "iw_ahead":
+                problems = problems[1:]
+                bump("iw_ahead_of_reader")
+            for what, violated in problems:
+                if violated:
+                    res["fails"].append((what, d, {"kind": "interleaved"}))
+                else:
+                    res["disagrees"].append((what, d))
+            res["n"] += 1
+            inputs.append([ns, w, o, 2, len(kinds)] + kinds + ev)
+            outputs.append(trace)
+            descr.append(d)
+            used = {e for e in ev if e >= 0}
+            bump("schedules")
+            bump("events", len(ev))
+            bump("with_tscale", -1 in ev)
+            bump("two_or_more_views", len(used) >= 2)
+            bump("valid_next_to_other", any(kinds[e] == 1 for e in used) and len(used) >= 2 and o % 2 == 0 and o > 0)
+            bump("splicing_views", any(kinds[e] == 2 for e in used))
+            bump("assertion_path", any(kinds[e] == 1 for e in used) and o % 2 == 1)
+            bump("pattern_" + pat)
+            res["nontrivial"] += len(used) >= 2 and max(len(v) for v in per_view) > 1
+            if len(res["samples"]) < 1 and len(used) >= 2:
+                res["samples"].append(d)
+    else:   # representations of the constructor arguments
+        for (ns, w, o) in items:
+            b = impl_observe(ns, w, o, False, interleave=False)
+            bump("unsigned_ns_lt_nswin_triples", ns < w)
+            for rep, (conv, rclass, ubits, _) in REPRS.items():
+                if rep == "int":
                     continue
-                d = dict(tri(ns, w, o), mode="repr", repr=rep, which=which)
-                tags_base = {"repr_class": rclass, "ns_lt_nswin": ns < w}
-                try:
-                    obs = impl_observe(ns, w, o, False, rep, which, interleave=False)
-                except Exception as e:
-                    ctx.fail("WindowGenerator raised %r for arguments given as %s" % (e, rep), d,
-                             dict(tags_base, kind="exception"))
-                    continue
-                n_repr += 1
-                rdist[rep] = rdist.get(rep, 0) + 1
-                for bmsg in oracle(obs):
-                    ctx.fail(bmsg + " [arguments given as %s (%s)]" % (rep, which), d,
-                             dict(tags_base, kind=bmsg.split()[0]))
-                for bmsg in soft_checks(obs):
-                    ctx.disagree(bmsg, d)
-                for k in ("fl", "valid", "ts", "slices"):
-                    if obs[k] != b[k]:
-                        ctx.disagree("%s depends on the representation of the arguments" % k, d)
-                if ubits in (0, 16, 32):
-                    inputs.append([ns, w, o, 3, ubits])
-                    outputs.append([obs["nwin"]])
-                    descr.append(d)
-    rdist["unsigned_ns_lt_nswin"] = sum(1 for t in dict.fromkeys(pool) if t[0] < t[1])
+                for which in ("all", "ns"):
+                    if not rep_applicable(rep, which, ns, w, o):
+                        continue
+                    d = dict(tri(ns, w, o), mode="repr", repr=rep, which=which)
+                    tags_base = {"repr_class": rclass, "ns_lt_nswin": ns < w}
+                    try:
+                        obs = impl_observe(ns, w, o, False, rep, which, interleave=False)
+                    except Exception as e:
+                        res["fails"].append(("WindowGenerator raised %r for arguments given as %s" % (e, rep), d,
+                                             dict(tags_base, kind="exception")))
+                        continue
+                    res["n"] += 1
+                    bump(rep)
+                    for bmsg in oracle(obs):
+                        res["fails"].append((bmsg + " [arguments given as %s (%s)]" % (rep, which), d,
+                                             dict(tags_base, kind=bmsg.split()[0])))
+                    for bmsg in soft_checks(obs):
+                        res["disagrees"].append((bmsg, d))
+                    for k in ("fl", "valid", "ts", "slices"):
+                        if obs[k] != b[k]:
+                            res["disagrees"].append(("%s depends on the representation of the arguments" % k, d))
+                    if ubits in (0, 16, 32):
+                        inputs.append([ns, w, o, 3, ubits])
+                        outputs.append([obs["nwin"]])
+                        descr.append(d)
+    # the same inputs through the extracted Coq model
+    model = _EX.run_many(inputs, nproc=1) if inputs else []
+    res["nmodel"] = len(inputs)
+    for i in range(len(inputs)):
+        if model[i] != outputs[i]:
+            k = next((q for q, (a, b) in enumerate(zip(model[i], outputs[i])) if a != b),
+                     min(len(model[i]), len(outputs[i])))
+            res["disagrees"].append(("model and implementation differ at output position %d (model %s, implementation %s)"
+                                     % (k, model[i][k:k + 4], outputs[i][k:k + 4]), descr[i]))
+    # a few cases of this chunk for the kernel (vm_compute) re-evaluation: smallest and random
+    order = sorted(range(len(inputs)), key=lambda i: len(inputs[i]) + len(outputs[i]))
+    r = random.Random(idx * 7919 + 17)
+    pick = order[:3] + (r.sample(range(len(inputs)), min(3, len(inputs))) if inputs else [])
+    res["keep"] = [(len(inputs[i]) + len(outputs[i]), inputs[i], outputs[i], descr[i]) for i in dict.fromkeys(pick)
+                   if len(inputs[i]) + len(outputs[i]) < 4000]
+    return res
 
-    common.correspondence(ctx, PROP, HEADER, inputs, outputs, lambda i: descr[i])
-    samples = [{"ns": c["ns"], "nswin": c["nswin"], "overlap": c["ov"], "firstlast": c["fl"][:4],
-                "nwin": c["nwin"]} for c in cases[:: max(1, len(cases) // 5)]][:5]
-    samples += [{k: v for k, v in d.items()} for d in descr[n_triples:n_triples + 2]]
+
+def run(ctx):
+    global _EX
+    import multiprocessing
+    # only the two float64 theorems may use the standard library's classical-real axioms (through Flocq)
+    common.proof_obligations(ctx, whitelist=sorted(common.STDLIB_AXIOMS))
+    for name, ax in ctx.theorems.items():
+        if name not in FLOAT_THEOREMS and ax != "Closed under the global context":
+            ctx.broken_proofs.append({"theorem": name, "why": "expected to be closed under the global context, uses %s" % (ax,)})
+            ctx.coverage["discharged"] = max(0, ctx.coverage.get("discharged", 0) - 1)
+    rng = ctx.rng
+    triples, boundary = gen_triples(ctx)
+    triples = list(dict.fromkeys(triples))
+    scheds, sseen = [], set()
+    for s in gen_schedules(ctx, 30000 if ctx.thorough() else 3500):
+        key = (s[0], s[1], s[2], tuple(s[3]), tuple(s[4]))
+        if key not in sseen and s[4]:
+            sseen.add(key)
+            scheds.append(s)
+    # representations: boundary rows + a sample of the triples with at most 200 windows
+    rest = [t for t in triples if max(0, -((-(t[0] - t[1])) // (t[1] - t[2]))) + 1 <= 200]
+    pool_t = list(dict.fromkeys(boundary + rng.sample(rest, min(len(rest), 6000 if ctx.thorough() else 700))))
+
+    jobs = []
+    for kind, items, size in (("triple", triples, 1500), ("sched", scheds, 400), ("repr", pool_t, 60)):
+        for c in range(0, len(items), size):
+            jobs.append((kind, len(jobs), items[c:c + size]))
+    try:
+        _EX = common.Extracted(PROP, "Run")
+    except RuntimeError as e:
+        ctx.broken_proofs.append({"theorem": "extraction of coq/C17/Run.v", "why": str(e)[-1500:]})
+        return common.finish(ctx, TRUSTED, rule="model could not be built", samples=[], evaluations=0, distinct_nontrivial=0)
+    nproc = max(2, min(common.NCPU - 2, 12, len(jobs)))
+    with multiprocessing.get_context("fork").Pool(nproc) as pool:
+        results = pool.map(_work, jobs, chunksize=1)
+
+    fam = {"triple": {}, "sched": {}, "repr": {}}
+    counts = {"triple": 0, "sched": 0, "repr": 0}
+    nontrivial = nmodel = 0
+    keep, samples = [], {"triple": [], "sched": [], "repr": []}
+    for (kind, _, _), r in zip(jobs, results):
+        for what, d, tags in r["fails"]:
+            ctx.fail(what, d, tags)
+        for what, d in r["disagrees"]:
+            ctx.disagree(what, d)
+        for k, v in r["stats"].items():
+            fam[kind][k] = fam[kind].get(k, 0) + v
+        counts[kind] += r["n"]
+        nontrivial += r["nontrivial"]
+        nmodel += r["nmodel"]
+        keep += r["keep"]
+        samples[kind] += r["samples"]
+    # tie the extraction to the definitions the theorems are about: kernel re-evaluation of a sample
+    keep.sort(key=lambda x: x[0])
+    chosen = keep[:30] + rng.sample(keep[30:], min(30, max(0, len(keep) - 30)))
+    terms = [common.flat_cases_term(i, c[1], c[2]) for i, c in enumerate(chosen)]
+    for i in (common.coq_mismatches(PROP, HEADER, terms, shard=100) if terms else []):
+        ctx.disagree("kernel-evaluated model and implementation differ", chosen[i][3])
+    ctx.coverage["model_evaluations_extracted"] = nmodel
+    ctx.coverage["model_evaluations_kernel"] = len(chosen)
+    sd = fam["sched"]
+    sd["patterns"] = {k[len("pattern_"):]: sd.pop(k) for k in [k for k in sd if k.startswith("pattern_")]}
+    smp = samples["triple"][:: max(1, len(samples["triple"]) // 5)][:5] + samples["sched"][:2]
     return common.finish(
         ctx, TRUSTED,
         rule="(1) (ns, nswin, overlap) triples: the box ns<=400 x nswin<=64 x every overlap (all of it in "
@@ -580,11 +659,12 @@ def run(ctx):
              "(3) the triples' arguments given as 11 NumPy/float representations (all three / only ns); "
              "non-trivial = more than one window (triples) / two or more views advanced and more than one "
              "window yielded (schedules); distinct by triple / by (triple, views, schedule)",
-        samples=samples, evaluations=n_triples + n_sched + n_repr, distinct_nontrivial=len(nontrivial),
-        extra={"input_distribution": dist, "schedule_distribution": sdist, "representation_runs": rdist,
-               "evaluations_by_family": {"triples": n_triples, "schedules": n_sched, "representations": n_repr},
-               "exhaustive": False, "box_exhaustive": bool(ctx.thorough())},
-        assumptions=["np.ceil on float64 quotient is the exact ceiling for operands below 2^52",
+        samples=smp, evaluations=sum(counts.values()), distinct_nontrivial=nontrivial,
+        extra={"input_distribution": fam["triple"], "schedule_distribution": sd, "representation_runs": fam["repr"],
+               "evaluations_by_family": {"triples": counts["triple"], "schedules": counts["sched"],
+                                         "representations": counts["repr"]},
+               "worker_processes": nproc, "exhaustive": False, "box_exhaustive": bool(ctx.thorough())},
+        assumptions=["Python float arithmetic is IEEE-754 binary64 as formalised by Flocq (operands below 2^53)",
                      "NumPy >= 2 scalar promotion (NEP 50) for unsigned arguments"])
 
 
@@ -600,6 +680,8 @@ def replay(ctx, data):
             trace, per_view, problems = run_schedule_impl(ns, w, o, inp["kinds"], inp["events"])
             print("views:", [KIND_NAMES[k] for k in inp["kinds"]], "events (-1 = tscale):", inp["events"])
             print("implementation trace (per event: output, iw, distinct amplitude buffers):", trace[:200])
+            print("wg.iw differed from the position of the view that had just yielded:", ("iw_ahead", None) in problems)
+            problems = [p for p in problems if p[0] != "iw_ahead"]
             print("problems seen on the implementation:", problems)
             ids = common.coq_mismatches(PROP, HEADER, [common.flat_cases_term(
                 0, [ns, w, o, 2, len(inp["kinds"])] + inp["kinds"] + inp["events"], trace)])
